@@ -2,9 +2,9 @@
 # Runs every seeded change against the quick check of its own property (and the extra
 # properties listed in seeded/MATRIX.conf) and writes seeded/RESULTS.md.
 cd /verif
-OUT=seeded/RESULTS.md
+PAT=${1:-C*}; OUT=${2:-seeded/RESULTS.md}
 echo "| seed | check | result |" > $OUT.tmp; echo "|---|---|---|" >> $OUT.tmp
-for d in seeded/C*; do
+for d in seeded/$PAT; do
   name=$(basename $d); pid=${name:0:3}
   extra=$(grep "^$name " seeded/MATRIX.conf 2>/dev/null | cut -d' ' -f2-)
   (cd /repo && git status --short | grep -q . && { echo "/repo not clean"; exit 2; })
